@@ -399,6 +399,17 @@ void FileManager::readProperty(std::istream& _iff, MeshT& _mesh) const {
     name = line;
     extractQuotedText(name);
 
+    if(name.empty()) {
+        // Properties in files are named (the writer skips anonymous ones); a header
+        // without a quoted name cannot be made persistent and used to escape as a
+        // std::runtime_error from set_persistent(). Treat it as a parse error.
+        if (verbosity_level_ >= 1) {
+            std::cerr << "OVM File loading error: property header without a name: " << line << std::endl;
+        }
+        _iff.setstate(std::ios::failbit);
+        return;
+    }
+
     if (verbosity_level_ >= 2) {
         std::cerr << "OVM read property " << name << " of type " << prop_t << std::endl;
     }
